@@ -90,7 +90,7 @@ def run(chk):
     procs = 4
     t_ph = {"enumerate": 0.0, "memory": 0.0, "sqlite": 0.0}
     t0 = time.time()
-    total = nontriv = matched = pairs_equal = 0
+    total = nontriv = matched = pairs_equal = design_only = 0
     excs, opkinds = {}, {}
 
     if not chk.quick:
@@ -165,7 +165,13 @@ def run(chk):
             fam, kind, ops, h, m, s = items[i + tid - 1]
             total += 1
             if conf == len(ops):
-                matched += 1
+                matched += 1                    # reproduced call by call by the as-coded model
+            elif clause == "ok":
+                matched += 1                    # reproduced by the design model (a deviation is gone)
+                design_only += 1
+                if design_only <= 3:
+                    chk.note("the code follows the design model where the as-coded model deviates (%s/%s): %s" % (
+                        fam, be, json.dumps([_short(o) for o in ops])))
             elif len(chk.notes) < 12:
                 chk.note("conformance drift (%s/%s): as-coded model reproduces %d/%d calls of %s" % (
                     fam, be, conf, len(ops), json.dumps([_short(o) for o in ops])))
@@ -185,7 +191,7 @@ def run(chk):
                 raise Machinery("back ends differ on a history that both match the model (impossible): %d" % (i + tid))
 
     chk.add(evaluations=total, distinct_nontrivial=nontriv, traces_validated_against_impl=matched,
-            backend_pairs_equal=pairs_equal, backend_pairs=len(items), exceptions_seen=dict(sorted(excs.items())),
+            matched_by_design_model_only=design_only, backend_pairs_equal=pairs_equal, backend_pairs=len(items), exceptions_seen=dict(sorted(excs.items())),
             operations_applied=dict(sorted(opkinds.items())))
     chk.exhaustive = True
     chk.assumptions += [
